@@ -66,12 +66,21 @@ def consensus_slice(ctx):
         r, ts = tm.simulate(ctx, cfg, n, d, ctx.seed, timeout=1800)
         ctx.add_tlc('Tendermint/' + cfg.name, r, exhaustive=False)
         traces += ts
+    # directed schedule: a replica that skips to a later round on +2/3 of any precommits must rotate the proposer with it
+    from .tm_family import Plan, scenario_traces
+    sp = Plan()
+    sp.scenarios = ['skip_round_on_precommits', 'restart_in_height_2']
+    nf = len(ctx.failures)
+    traces += scenario_traces(ctx, sp)
+    del ctx.failures[nf:]          # a schedule the code cannot follow is judged by C01/C04/C12, not here
     for k, t in enumerate(traces):
         t['cfg'] = dict(t['cfg'], Variant=k)
     rep = engine.run_driver(ctx, 'csim', traces, timeout=3600)
     # only a proposer disagreement is a verdict about this property; other divergences belong to C01/C04/C07/C12
-    other = [f for f in (rep.get('failures') or []) if 'proposer' not in (f.get('key') or '')]
-    rep['failures'] = [f for f in (rep.get('failures') or []) if 'proposer' in (f.get('key') or '')]
+    def about_proposer(f):
+        return 'proposer' in (f.get('key') or '') or 'proposer' in (f.get('detail') or '')
+    other = [f for f in (rep.get('failures') or []) if not about_proposer(f)]
+    rep['failures'] = [dict(f, key='state:proposer') for f in (rep.get('failures') or []) if about_proposer(f)]
     engine.collect(ctx, rep, traces, 'csim')
     rounds = sum(1 for t in traces if any(nd.get('r', 0) >= 1 for s in t['steps']
                                           for nd in (s['post']['node'] if isinstance(s['post']['node'], list) else s['post']['node'].values())))
@@ -86,7 +95,8 @@ def run(ctx, replay=None):
     if replay is not None and replay.get('engine') == 'csim':
         engine.build_go(ctx, ['csim'])
         rep = engine.run_driver(ctx, 'csim', [replay['trace']], timeout=900)
-        rep['failures'] = [f for f in (rep.get('failures') or []) if 'proposer' in (f.get('key') or '')]
+        rep['failures'] = [dict(f, key='state:proposer') for f in (rep.get('failures') or [])
+                           if 'proposer' in (f.get('key') or '') or 'proposer' in (f.get('detail') or '')]
         engine.collect(ctx, rep, [replay['trace']], 'csim')
         ctx.cov['traces_validated_against_impl'] = 1
         ctx.cov['states'] = ctx.cov['transitions'] = max(1, len(replay['trace']['steps']))
